@@ -67,8 +67,8 @@ def m1_equivalence_rule(ctx) -> None:
         ctx.violation("M1", bw.node, "EquivalenceRule.backward_map no longer uses the original rule's backward_map", construct="EquivalenceRule.backward_map delegate")
     # the slot attribute is the index of the non-empty child in the original children
     init = P.need_method("EquivalenceRule", "__init__", own=True)
-    t = norm(init.node)
-    if "self.child_idx = rule.children.index(child)" in t and "self.actual_children = rule.children" in t:
+    from ..core import pattern as PT
+    if PT.find_all(init.node, "self.child_idx = rule.children.index(_M_c)") and PT.find_all(init.node, "self.actual_children = rule.children"):
         ctx.ok("M1", "child_idx is the position of the non-empty child among the original children")
     else:
         ctx.violation("M1", init.node, "EquivalenceRule.__init__ must set child_idx = rule.children.index(child) and actual_children = rule.children", construct="EquivalenceRule.__init__ slot")
@@ -224,8 +224,9 @@ def m4_generation_wiring(ctx) -> None:
         ctx.violation("M4", ss.node, f"set_subrecs no longer binds self.{attr}", construct=f"AbstractRule.set_subrecs {attr}")
     # parameters of the parent select the objects
     go = P.need_method("AbstractRule", "generate_objects_of_size", own=True)
-    t = norm(go.node)
-    if "tuple((parameters[k] for k in self.comb_class.extra_parameters))" in t and "objects[params_tuple]" in t:
+    from ..core import pattern as PT
+    pt = PT.find_all(go.node, "_M_pt = tuple((parameters[_M_k] for _M_k in self.comb_class.extra_parameters))")
+    if pt and PT.find_all(go.node, "_M_o[_M_pt]", {"_M_pt": pt[0][1]["_M_pt"]}):
         ctx.ok("M4", "generated objects are selected by the parent's own parameter tuple")
     else:
         ctx.violation("M4", go.node, "generate_objects_of_size must index the level by tuple(parameters[k] for k in self.comb_class.extra_parameters)", construct="AbstractRule.generate_objects_of_size")
